@@ -27,11 +27,12 @@ const (
 	TXA
 	TVv // hw.V.ValM, reached with Struct(hw.V{}) (value instance)
 	TVp // (*hw.V).PtrM, reached with Struct(&hw.V{}) (pointer instance)
+	TLm2 // (*hw.S).m2, a second unexported method of S
 	NTargets
 )
 
 // TargetNames for printing.
-var TargetNames = []string{"F0", "F1", "(*S).M", "(*S).m", "G", "hw.g2", "own.g2", "X.A", "V.ValM", "(*V).PtrM"}
+var TargetNames = []string{"F0", "F1", "(*S).M", "(*S).m", "G", "hw.g2", "own.g2", "X.A", "V.ValM", "(*V).PtrM", "(*S).m2"}
 
 //go:noinline
 func g2(a int) int {
@@ -47,7 +48,7 @@ func g2(a int) int {
 func CallOwnG2(a int) int { return g2(a) }
 
 // Original results: a + Orig[t]; X.A unmocked panics (nil interface).
-var Orig = []int{100, 200, 300, 400, 500, 600, 650, 0, 150, 250}
+var Orig = []int{100, 200, 300, 400, 500, 600, 650, 0, 150, 250, 450}
 
 // Call calls target t with argument a.
 func Call(t Target, a int) int {
@@ -72,6 +73,8 @@ func Call(t Target, a int) int {
 		return hw.V{K: 1}.ValM(a)
 	case TVp:
 		return (&hw.V{K: 1}).PtrM(a)
+	case TLm2:
+		return hw.CallLowerM2(&hw.S{K: 1}, a)
 	}
 	panic("bad target")
 }
@@ -98,6 +101,8 @@ func EntryPC(t Target) uintptr {
 		return pcByName(hw.Pkg + ".V.ValM")
 	case TVp:
 		return pcByName(hw.Pkg + ".(*V).PtrM")
+	case TLm2:
+		return pcByName(hw.Pkg + ".(*S).m2")
 	}
 	return 0
 }
@@ -205,6 +210,7 @@ type World struct {
 	handles [2][NTargets]*handle
 	kept    [2][NTargets]*handle
 	outer   [2]*mocker.CachedMethodMocker
+	nAs     int
 	nRet    [2][NTargets]int
 	nWhen   [2][NTargets]int
 	og      func(int) int
@@ -222,7 +228,7 @@ func NewWorld() *World {
 func (w *World) lookup(b int, t Target) *handle {
 	bd := w.B[b]
 	h := &handle{}
-	if (t == TM || t == TLm) && w.outer[b] == nil {
+	if (t == TM || t == TLm || t == TLm2) && w.outer[b] == nil {
 		w.outer[b] = bd.Struct(&hw.S{})
 	}
 	switch t {
@@ -236,6 +242,8 @@ func (w *World) lookup(b int, t Target) *handle {
 		h.exported = bd.Struct(&hw.S{}).Method("M")
 	case TLm:
 		h.unexported = bd.Struct(&hw.S{}).ExportMethod("m")
+	case TLm2:
+		h.unexported = bd.Struct(&hw.S{}).ExportMethod("m2")
 	case TG2hw, TG2own:
 		// which g2 is resolved depends on the builder's package override (model decides t)
 		h.unexported = bd.ExportFunc("g2")
@@ -254,7 +262,7 @@ func (w *World) lookup(b int, t Target) *handle {
 }
 
 func asFunc(t Target) interface{} {
-	if t == TLm {
+	if t == TLm || t == TLm2 {
 		return func(s *hw.S, a int) int { return 0 }
 	}
 	return func(a int) int { return 0 }
@@ -274,12 +282,15 @@ func (w *World) Do(op Op) (panicMsg string, panicked bool) {
 			return
 		}
 		var h *handle
-		if op.Outer && w.outer[op.B] != nil && (op.T == TM || op.T == TLm) {
+		if op.Outer && w.outer[op.B] != nil && (op.T == TM || op.T == TLm || op.T == TLm2) {
 			h = &handle{}
-			if op.T == TM {
+			switch op.T {
+			case TM:
 				h.exported = w.outer[op.B].Method("M")
-			} else {
+			case TLm:
 				h.unexported = w.outer[op.B].ExportMethod("m")
+			default:
+				h.unexported = w.outer[op.B].ExportMethod("m2")
 			}
 			w.handles[op.B][op.T] = h
 		} else if op.Kept && w.kept[op.B][op.T] != nil {
@@ -301,7 +312,14 @@ func (w *World) Do(op Op) (panicMsg string, panicked bool) {
 			}
 		case h.iface != nil:
 			if op.K == KReturn || op.K == KWhenReturn {
-				em = h.iface.As(func(ctx *mocker.IContext, a int) int { return 0 })
+				// the method's signature is given by a func literal written at the call site: two
+				// call sites give two function values of one type
+				w.nAs++
+				if w.nAs%2 == 1 {
+					em = h.iface.As(func(ctx *mocker.IContext, a int) int { return 0 })
+				} else {
+					em = h.iface.As(func(ctx *mocker.IContext, a int) int { return -1 })
+				}
 			}
 		}
 		switch op.K {
@@ -315,7 +333,7 @@ func (w *World) Do(op Op) (panicMsg string, panicked bool) {
 				h.exported.Apply(func(v hw.V, a int) int { return a + add })
 			case t == TVp:
 				h.exported.Apply(func(v *hw.V, a int) int { return a + add })
-			case t == TM || t == TLm:
+			case t == TM || t == TLm || t == TLm2:
 				cb := func(s *hw.S, a int) int { return a + add }
 				if h.exported != nil {
 					h.exported.Apply(cb)
@@ -352,7 +370,7 @@ func (w *World) Do(op Op) (panicMsg string, panicked bool) {
 		case KWhenReturn:
 			v := 800 + w.nWhen[op.B][t]
 			w.nWhen[op.B][t]++
-			if t == TLm {
+			if t == TLm || t == TLm2 {
 				// As() yields a function-style mocker: the receiver is an ordinary first parameter
 				em.When(anyArg(), 1).Return(v)
 			} else {
